@@ -1,5 +1,6 @@
 """C19 - client GET returns exact data for every block split; errors never pass as data."""
 from harness import framework as fw
+from harness import refcrypto
 
 MT = bytes.fromhex("4d4d4d0000000001")
 CT = bytes.fromhex("0102030405060708")
@@ -74,7 +75,7 @@ class Runner:
         from dlms_cosem.protocol import xdlms
         if wire[:1] == b"\xdb":
             g = xdlms.GeneralGlobalCipher.from_bytes(wire)
-            wire = bytes(security.decrypt(g.security_control, g.system_title, g.invocation_counter, EK, g.ciphered_text, AK))
+            wire = bytes(refcrypto.open_(g.security_control.to_bytes()[0], g.system_title, g.invocation_counter, EK, g.ciphered_text, AK))
         t = wire[0]
         if t == 0x60:
             return "aarq"
@@ -98,7 +99,7 @@ class Runner:
             return plain
         self.mic += 1
         sc = self.conn.security_control
-        ct = security.encrypt(sc, MT, self.mic, EK, plain, AK)
+        ct = refcrypto.seal(sc.to_bytes()[0], MT, self.mic, EK, plain, AK)
         return xdlms.GeneralGlobalCipher(system_title=MT, security_control=sc, invocation_counter=self.mic, ciphered_text=ct).to_bytes()
 
     def answer_bytes(self, tok):
@@ -136,7 +137,7 @@ class Runner:
                 # the proof a holder of both keys computes over the client's challenge under the meter's nonce
                 sc = security.SecurityControlField(self.conn.security_suite, authenticated=True, encrypted=False)
                 ic = self.mic + 1000
-                body = sc.to_bytes() + ic.to_bytes(4, "big") + security.gmac(sc, MT, ic, EK, AK, self.conn.client_to_meter_challenge)
+                body = sc.to_bytes() + ic.to_bytes(4, "big") + refcrypto.gmac(sc.to_bytes()[0], MT, ic, EK, AK, self.conn.client_to_meter_challenge)
                 d = b"\x09" + bytes([len(body)]) + body
             o = xdlms.ActionResponseNormalWithData(en.ActionResultStatus(int(f[2])), d, iip(f[1]))
         elif k == "are":
@@ -178,7 +179,7 @@ class Runner:
         from harness.connlib import conf_obj
         self.mic += 1
         sc = self.conn.security_control
-        ct = security.encrypt(sc, MT, self.mic, EK, xdlms.InitiateResponse(conf_obj(0x1F0B2), pdu).to_bytes(), AK)
+        ct = refcrypto.seal(sc.to_bytes()[0], MT, self.mic, EK, xdlms.InitiateResponse(conf_obj(0x1F0B2), pdu).to_bytes(), AK)
         return xdlms.GlobalCipherInitiateResponse(sc, self.mic, ct)
 
     # ---- one operation
@@ -240,6 +241,7 @@ def run_session(d):
 
     def impl():
         r = Runner(d["ciphered"], d["state"], pre=bool(d.get("pre")))
+        r.mic = d.get("mic0", 100)                 # where the meter's invocation counter stands
         out = ["ok"]
         for name, script in d["ops"]:
             out.append(r.op(name, script))
@@ -413,6 +415,13 @@ class C19(fw.Prop):
             for ops in ([("get", [f"gn:{INV0}:0901ff"])], [("assoc", ["aare:0:0"]), ("get", [f"gb:{INV0}:1:01", f"gl:{INV0}:2:02"])]):
                 yield self.make_case({"ciphered": ciphered, "state": "NO_ASSOCIATION" if ops[0][0] == "assoc" else "READY", "ops": ops,
                                       "tag": "second-client", "second_client": True})
+            # --- sessions in which the meter's invocation counter is large / crosses 2^31 / approaches 2^32
+            if ciphered:
+                for mic0 in (2 ** 31 - 4, 2 ** 31, 0xC0000000, 2 ** 32 - 5000):
+                    ops = [("assoc", ["aare:0:0"])] + [self.good_exchange(rng) for _ in range(6)]
+                    yield self.make_case({"ciphered": True, "state": "NO_ASSOCIATION", "ops": ops, "tag": "meter-counter-large", "mic0": mic0})
+                    ops = [self.good_exchange(rng) for _ in range(6)]
+                    yield self.make_case({"ciphered": True, "state": "READY", "ops": ops, "tag": "meter-counter-large", "mic0": mic0})
             # --- sessions
             for _ in range(40 if deep else 6):
                 ops = [self.good_exchange(rng) for _ in range(rng.randint(3, 60 if deep else 20))]
